@@ -137,6 +137,14 @@ M['c15_b6_restore_on_failure'] = ('C15', 'quiet', 'benign w.r.t. everything but 
     (MAIN, "            if args.in_place:\n                with open(path, 'wb') as f:\n                    f.write(minified)\n",
            "            if args.in_place:\n                try:\n                    with open(path, 'wb') as f:\n                        f.write(minified)\n                except BaseException:\n                    with open(path, 'wb') as f:\n                        f.write(source)\n                    raise\n"),
 ])
+M['c15_n10_remove_on_interrupt'] = ('C15', 'detect', 'Ctrl-C while the in-place file is being written removes the "half-written" module (only `except KeyboardInterrupt`: no errno fault and no crash reaches it)', [
+    (MAIN, "            if args.in_place:\n                with open(path, 'wb') as f:\n                    f.write(minified)\n",
+           "            if args.in_place:\n                try:\n                    with open(path, 'wb') as f:\n                        f.write(minified)\n                except KeyboardInterrupt:\n                    os.remove(path)\n                    raise\n"),
+])
+M['c15_b7_graceful_interrupt_exit0'] = ('C15', 'quiet', 'benign: Ctrl-C while a source is being read ends the run quietly with status 0 (the property says nothing about interrupts; all files are old or new)', [
+    (MAIN, "            with open(path, 'rb') as f:\n                source = f.read()\n",
+           "            try:\n                with open(path, 'rb') as f:\n                    source = f.read()\n            except KeyboardInterrupt:\n                sys.stderr.write('interrupted\\n')\n                sys.exit(0)\n"),
+])
 M['c15_b3_pathlib_io'] = ('C15', 'quiet', 'benign: reads through pathlib', [
     (MAIN, "            with open(path, 'rb') as f:\n                source = f.read()\n", "            import pathlib\n            source = pathlib.Path(path).read_bytes()\n"),
 ])
